@@ -3,6 +3,7 @@ package blockstore
 import (
 	"context"
 	"fmt"
+	"io"
 	"os"
 
 	blocks "github.com/ipfs/go-block-format"
@@ -222,11 +223,25 @@ func (b *ReadWrite) PutMany(ctx context.Context, blks []blocks.Block) error {
 
 		n := uint64(b.dataWriter.Position())
 		if err := util.LdWrite(b.dataWriter, c.Bytes(), bl.RawData()); err != nil {
+			// Undo the partial section: rewind the writer and cut the debris off, so that the
+			// payload stays well-formed and a later Put does not land after it.
+			b.undoPartialSection(n)
 			return err
 		}
 		b.idx.InsertNoReplace(c, n)
 	}
 	return nil
+}
+
+// undoPartialSection repositions the data writer at payload offset n and truncates the file there.
+// It is best effort: the write error that led here is what gets reported.
+func (b *ReadWrite) undoPartialSection(n uint64) {
+	_, _ = b.dataWriter.Seek(int64(n), io.SeekStart)
+	offset := int64(b.header.DataOffset)
+	if b.opts.WriteAsCarV1 {
+		offset = 0
+	}
+	_ = b.f.Truncate(offset + int64(n))
 }
 
 // Discard closes this blockstore without finalizing its header and index.
